@@ -43,9 +43,19 @@ for c in cases:
         run(f"git -C /repo worktree remove --force {wt}")
         run(f"rm -rf {vc}")
     print(rows[-1][0]["name"], rows[-1][1][:120], f"{rows[-1][2]:.0f}s", flush=True)
+# results are merged by case name into selftest/last_run.json (a partial run keeps the other cases' last outcome)
+lj = "/verif/selftest/last_run.json"
+prev = json.load(open(lj)) if os.path.exists(lj) else {}
+head = subprocess.run("git -C /repo log -1 --format=%h", shell=True, stdout=subprocess.PIPE, text=True).stdout.strip()
+for c, o, t in rows:
+    prev[c["name"]] = {"check": (c["prop"] + " " + c.get("only", "")).strip(), "change": c["what"], "outcome": o, "seconds": round(t), "repo_head": head}
+json.dump(prev, open(lj, "w"), indent=1, ensure_ascii=False)
 with open("/verif/selftest/LAST_RUN.md", "w") as f:
-    f.write("# must-fail corpus, last run\n\n| case | check | change | outcome | s |\n|---|---|---|---|---|\n")
-    for c, o, t in rows:
-        f.write(f"| {c['name']} | {c['prop']} {c.get('only','')} | {c['what']} | {o} | {t:.0f} |\n")
-    f.write(f"\n{len(rows)-bad} of {len(rows)} caught.\n")
+    f.write("# must-fail corpus, last outcome per case\n\n| case | check | change | outcome | s | /repo HEAD |\n|---|---|---|---|---|---|\n")
+    nb = 0
+    for n in sorted(prev):
+        r = prev[n]
+        nb += 0 if r["outcome"].startswith("caught") else 1
+        f.write(f"| {n} | {r['check']} | {r['change']} | {r['outcome']} | {r['seconds']} | {r['repo_head']} |\n")
+    f.write(f"\n{len(prev)-nb} of {len(prev)} caught.\n")
 sys.exit(1 if bad else 0)
